@@ -167,7 +167,24 @@ fn check(input: &In, case: &mut Case) -> Result<(), Fail> {
     if input.3.is_some() {
         case.class("count-bumped");
     }
-    let accepted = framing_oracle(&m, case)?;
+    // One message in four arrives in a receive buffer that held another datagram a moment ago: the same octets with
+    // the first label of the first name split differently, cut one octet short (so its parse is refused after names
+    // were read), at the same address. What the parser makes of the message must not depend on that.
+    let mut reused;
+    let m: &[u8] = if m.len() % 4 == 2 && m.len() > 16 && (3..64).contains(&m[12]) {
+        case.class("reused-receive-buffer");
+        reused = m.clone();
+        let l = reused[12];
+        reused[12] = 1;
+        reused[14] = l - 2;
+        let cut = reused.len() - 1;
+        let _ = parse(&reused[..cut]);
+        reused.copy_from_slice(&m);
+        &reused
+    } else {
+        &m
+    };
+    let accepted = framing_oracle(m, case)?;
     case.nontrivial = accepted && nrec >= 2 && tweaked;
     if accepted {
         case.class("library-accepts");
